@@ -64,7 +64,8 @@ def floors(tier):
     k = 1 if tier == "quick" else 20
     f = {"runs": 400 * k, "decided:occupancy_events": 50000 * k, "decided:end_notifications": 3000 * k,
          "decided:result_deliveries": 8000 * k, "runs:sjwd_false": 20 * k, "runs:with_failure": 40 * k,
-         "runs:proc_backend": 80 * k, "runs:with_external_stop": 15 * k, "external_stops_notified": 15 * k}
+         "runs:proc_backend": 80 * k, "runs:with_external_stop": 15 * k, "external_stops_notified": 15 * k,
+         "decided:job_end_reported": 300 * k}
     for kd in KINDS:
         f[f"kind:{kd}:runs"] = 20 * k
         if kd.startswith("fifo") or kd == "median":
@@ -152,6 +153,7 @@ def check_trace(o, events, n_workers, sjwd, kind, exc=None, busy_probe=None):
     starts_since_busy = 0
     sig = []
     had_pause = set()
+    job_ended = {}         # trial -> [status, polls since the job of its current run ended by itself]
 
     stop = [False]
 
@@ -229,6 +231,7 @@ def check_trace(o, events, n_workers, sjwd, kind, exc=None, busy_probe=None):
             tid = pl["trial_id"]
             state[tid] = "running"
             batch_status.pop(tid, None)  # a new run of the trial begins; the polled status belonged to the old one
+            job_ended.pop(tid, None)
             runs[tid] = runs.get(tid, 0) + 1
             n_results_in_run[tid] = 0
             occupied.add(tid)
@@ -238,12 +241,24 @@ def check_trace(o, events, n_workers, sjwd, kind, exc=None, busy_probe=None):
                 o.count(f"kind:{kind}:pause_then_resume")
         elif k == "b.fetch_status_results.call":
             end_of_batch()
+        elif k == "w.job_end":
+            if state.get(pl["trial"]) == "running":
+                job_ended[pl["trial"]] = [pl["status"], 0]
         elif k == "b.fetch_status_results.ret":
             for tid, st in pl["ret"]["status"].items():
                 st = st.lower()
                 batch_status[tid] = st
                 if st in ("completed", "failed", "stopped"):
                     occupied.discard(tid)
+            # bounded progress: a job that ended by itself is reported as ended by the second poll after
+            for tid in list(job_ended):
+                if state.get(tid) != "running" or batch_status.get(tid) in ("completed", "failed", "stopped"):
+                    del job_ended[tid]
+                    o.count("decided:job_end_reported")
+                    continue
+                job_ended[tid][1] += 1
+                if job_ended[tid][1] >= 3:
+                    V("end_notification", f"job_{job_ended[tid][0]}_but_status_never_reported", trial=tid, polls_since=job_ended[tid][1])
             for tid, res in pl["ret"]["results"]:
                 fetched.setdefault(tid, []).append(res)
         elif k == "s.on_trial_result.call":
